@@ -17,6 +17,7 @@ var (
 		"github.com/beevik/etree":                        true,
 		"github.com/russellhaering/goxmldsig/etreeutils": true,
 		"errors": true,
+		"slices": true,
 		"github.com/russellhaering/goxmldsig/types": true,
 		"github.com/russellhaering/goxmldsig":       true,
 	}
